@@ -306,6 +306,23 @@ fn emit_c12(w: &mut dyn Write, id: &str, label: &str, m: &Machine, crafted: Opti
         let again = same_slice_again(m.clone(), fp, fb);
         let _ = writeln!(w, "o fwnew2 {}", again);
     }
+    // the judgement on a machine must not depend on its neighbours in the machine list: next to a valid
+    // eight-state ring (before and after it) Framework::new must say the same as for the machine alone
+    if fwnew == "ok" || fwnew == "err" {
+        let ring = ring_machine(8);
+        let (a, b) = (vec![ring.clone(), m.clone()], vec![m.clone(), ring]);
+        let r = with_watchdog(5000, move || {
+            let x = Framework::new(a, fp, fb, VInstant(0), ScriptRng::new(7, 0)).is_ok();
+            let y = Framework::new(b, fp, fb, VInstant(0), ScriptRng::new(7, 0)).is_ok();
+            (x, y)
+        });
+        let s3 = match r {
+            Outcome::Done((x, y)) => format!("{} {}", if x { "ok" } else { "err" }, if y { "ok" } else { "err" }),
+            Outcome::Panic => "panic panic".to_string(),
+            Outcome::Hang => "hang hang".to_string(),
+        };
+        let _ = writeln!(w, "o fwnew3 {}", s3);
+    }
     // "a machine obtained from any of them can always be run": drive every framework the
     // implementation agreed to build through a short scripted history (every event kind, for the
     // machine itself and for an unknown id, three fair random streams) and report how it went
@@ -381,6 +398,12 @@ fn same_slice_again(m: Machine, fp: f64, fb: f64) -> &'static str {
             "hang"
         }
     }
+}
+
+/// a valid machine with `n` states in a ring over NormalSent
+fn ring_machine(n: usize) -> Machine {
+    let states: Vec<State> = (0..n).map(|i| State::new(enum_map! { Event::NormalSent => vec![Trans((i + 1) % n, 1.0)], _ => vec![] })).collect();
+    Machine::new(0, 0.0, 0, 0.0, states).expect("ring machine")
 }
 
 fn run_accepted(m: Machine, fp: f64, fb: f64) {
@@ -482,6 +505,10 @@ fn f(b: u64) -> f64 {
     f64::from_bits(b)
 }
 
+fn next_up_f(x: f64) -> f64 {
+    if x >= 0.0 { f64::from_bits(x.to_bits() + 1) } else { f64::from_bits(x.to_bits() - 1) }
+}
+
 fn konst(v: f64) -> Dist {
     Dist { dist: DistType::Uniform { low: v, high: v }, start: 0.0, max: 0.0 }
 }
@@ -538,6 +565,11 @@ pub fn dist_corners() -> Vec<(String, DistType)> {
     v.push(("uniform-top-ulp".into(), DistType::Uniform { low: next_down(f64::MAX), high: f64::MAX }));
     v.push(("uniform-subnormal".into(), DistType::Uniform { low: 0.0, high: 5e-324 }));
     v.push(("uniform-inverted".into(), DistType::Uniform { low: 2.0, high: 1.0 }));
+    // inverted by one ulp only (rounding noise such as 0.1 + 0.2 against 0.3): still an empty range
+    for (t, hi) in [("1", 1.0f64), ("300", 300.0), ("0.3", 0.3), ("1e300", 1e300), ("-1", -1.0), ("tiny", 1e-300)] {
+        v.push((format!("uniform-inverted-ulp-{t}"), DistType::Uniform { low: next_up_f(hi), high: hi }));
+    }
+    v.push(("uniform-inverted-0.1+0.2".into(), DistType::Uniform { low: 0.1 + 0.2, high: 0.3 }));
     // zeros of opposite sign are equal as numbers (a constant distribution), not as bit patterns or in total order
     v.push(("uniform-negzero-zero".into(), DistType::Uniform { low: -0.0, high: 0.0 }));
     v.push(("uniform-zero-negzero".into(), DistType::Uniform { low: 0.0, high: -0.0 }));
